@@ -10,11 +10,14 @@ THEOREMS = [
     "Cassis.Xmi.pass1_lenient_eq_filtered",
     "Cassis.Xmi.pass1_known_same",
     "Cassis.Xmi.pass1_lenient_ids",
+    "Cassis.Xmi.buildCas_skip_eq_dropped",
+    "Cassis.Xmi.buildCas_flag_irrelevant",
+    "Cassis.Xmi.loadXmi_lenient_eq_strict_filtered",
     "Cassis.Cas.handles_history",
 ]
 ASSUMPTIONS = [
     "proved: the first pass of the XMI reader raises type-not-found in strict mode as soon as an element of unknown type occurs; in lenient mode it produces exactly the state it produces on the document with those elements removed (plus the remembered ids); with all types known both modes coincide; every view handle of a CAS keeps its leniency (C08)",
-    "the remaining passes (post-processing, view construction, member skipping) are compared per run: lenient load of the document = strict load of the independently filtered document, on implementation and model (partial)",
+    "proved end to end on the model: a lenient load of a document yields exactly the CAS and heap of the strict load of the document without the unknown-typed elements and without their ids in the view member lists (third pass skips exactly the remembered ids; the flag is irrelevant for registered types); the same equation is checked per run on the implementation with an independently filtered document",
     "documents are subject to the property's side condition: no remaining structure references a dropped one",
 ]
 
